@@ -131,7 +131,7 @@ def _x_cases():
     for oc in 'SU':
         for ic in 'SU':
             mech = 'inline-nested:dropped' if oc != ic else 'inline-nested:abort'
-            for inn in inner:
+            for inn in (inner if oc != ic else inner[:3] + inner[5:6]):
                 an = ["anon", int(ic == 'U'), [t for _, t in inn]]
                 for pn, f in pats[:4]:
                     out.append(('anon:%s:%s(%s):%s' % (oc, ic, ','.join(n for n, _ in inn), pn),
@@ -157,6 +157,7 @@ def _x_cases():
     return out
 
 
+SOLO_MECHS = ('inline-nested:abort', 'union-callback-field:abort', 'unknown:void-field')
 X_CASES = _x_cases()
 X_INDEX = dict((c[0], i) for i, c in enumerate(X_CASES))
 
@@ -191,7 +192,7 @@ def expand(spec):
         return {'k': 'en:%s:%d..%d' % ('bitfield' if flags else 'enumeration', lo, hi), 'f': fam,
                 'd': [["E", "E", vals, flags], ["S", "O", [i8, ["e", "E"], i8]], ["U", "V", [["a", ["e", "E"], 3], i8]]],
                 'm': 'enum-storage:64bit' if big else None, 'u': None}
-    if fam == 'x':
+    if fam in ('x', 'xs'):
         k, decls, mech, unspec = X_CASES[X_INDEX[spec[1]]]
         return {'k': 'x:' + k, 'f': fam, 'd': decls, 'm': mech, 'u': unspec}
     raise ValueError(spec)
@@ -211,13 +212,17 @@ def all_specs(tier):
     thorough = tier == 'thorough'
     out = []
     core_len = 4 if thorough else 3
-    var_len = 3 if thorough else 2
     for cont in 'SU':
         ex = (CB,) if cont == 'U' else ()      # function-pointer members of unions: family x
         for idx in seqs(NCORE, core_len, exclude=ex):
             out.append(('seq', cont, idx))
-        for idx in seqs(len(ATOMS), var_len, skip_all_below=NCORE, exclude=ex):
+        for idx in seqs(len(ATOMS), 2, skip_all_below=NCORE, exclude=ex):
             out.append(('seq', cont, idx))
+        if thorough:
+            # length 3 with exactly one non-core kind, at every position
+            for idx in itertools.product(range(len(ATOMS)), repeat=3):
+                if sum(1 for i in idx if i >= NCORE) == 1 and not any(i in ex for i in idx):
+                    out.append(('seq', cont, idx))
     inner = []
     for ic in 'SU':
         for L in (1, 2):
@@ -238,7 +243,7 @@ def all_specs(tier):
             for flags in (0, 1):
                 out.append(('en', lo, hi, flags))
     for c in X_CASES:
-        out.append(('x', c[0]))
+        out.append(('xs' if c[2] in SOLO_MECHS else 'x', c[0]))
     return out
 
 
@@ -265,7 +270,7 @@ def run_gcc(groups, wd, tag):
     text = M.c_program(groups)
     with open(src, 'w') as f:
         f.write(text)
-    p = subprocess.run([GCC, '-std=gnu11', '-O0', '-w', '-o', exe, src], stdout=subprocess.PIPE,
+    p = subprocess.run([GCC, '-std=gnu11', '-O0', '-w', '-pipe', '-o', exe, src], stdout=subprocess.PIPE,
                        stderr=subprocess.STDOUT)
     if p.returncode != 0:
         raise HarnessBroken('gcc rejected the generated C:\n%s\n%s' % (p.stdout.decode('utf-8', 'replace')[-1500:],
@@ -447,9 +452,12 @@ def _brief(e):
             'offsets': [(f['name'], f['struct_offset']) for f in e.get('fields', [])]}
 
 
-def report(part, c, spec, order, probs, tier, extra=None):
+def report(part, seen, c, spec, order, probs, tier, extra=None):
     aspect, text = probs[0]
     key = c['m'] if c['m'] else '%s|%s' % (c['k'], aspect)
+    if key in seen:
+        return
+    seen.add(key)
     case = {'spec': list(spec), 'order': list(order), 'tier': tier, 'key': c['k'], 'c': M.show_c(c['d']),
             'problems': [t for _, t in probs][:8]}
     if extra:
@@ -465,26 +473,30 @@ def _work(chunk):
     wd = tools.workdir('c08')
     isolations = 0
     confirmed = 0
+    seen = set()
     try:
-        for fam, specs in batches:
-            cases = [('L%d' % i, expand(s)) for i, s in enumerate(specs)]
-            gcc = gcc_numbers(cases, wd, 'b')
+        # one C program for the whole chunk (gcc's fixed cost dominates), one GIR per batch and order
+        allcases = []
+        for j, (fam, specs) in enumerate(batches):
+            allcases.append([('B%dL%d' % (j, i), expand(s)) for i, s in enumerate(specs)])
+        gcc = gcc_numbers([x for cs in allcases for x in cs], wd, 'b')
+        for (fam, specs), cases in zip(batches, allcases):
             part.add(states=len(cases), transitions=sum(len(d[2]) for _, c in cases for d in c['d'] if d[0] != 'C'))
             orders = orders_for(fam, tier)
-            if fam == 'x':
-                # each case alone: several of them make the compiler abort
+            for pfx, c in cases:
+                if c['u']:
+                    part.add(unspecified=1)
+                else:
+                    part.nontrivial(c['k'])
+            if fam == 'xs':
+                # each case alone: these make the compiler abort
                 for (pfx, c), spec in zip(cases, specs):
-                    g1 = remap(gcc, pfx)
                     for order in orders:
-                        probs, info = solo(b, spec, order, wd, g1)
+                        probs, info = solo(b, spec, order, wd, remap(gcc, pfx))
                         part.add(evaluations=1, traces_validated_against_impl=1)
-                        part.outcome(('x', c['k'], info['rc'], bool(probs)))
-                        if c['u']:
-                            part.add(unspecified=1)
-                        else:
-                            part.nontrivial(c['k'])
+                        part.outcome(('xs', c['k'], info['rc'], bool(probs)))
                         if probs:
-                            report(part, c, spec, order, probs, tier, {'compiler': info['stderr']})
+                            report(part, seen, c, spec, order, probs, tier, {'compiler': info['stderr']})
                 if cases:
                     part.sample({'case': cases[0][1]['k'], 'c': M.show_c(cases[0][1]['d'])})
                 continue
@@ -503,7 +515,7 @@ def _work(chunk):
                         probs, info = solo(b, spec, order, wd, remap(gcc, pfx))
                         part.add(evaluations=1)
                         if probs:
-                            report(part, c, spec, order, probs, tier, {'compiler': info['stderr']})
+                            report(part, seen, c, spec, order, probs, tier, {'compiler': info['stderr']})
                     continue
                 hp = []
                 for d in HELPERS:
@@ -516,21 +528,24 @@ def _work(chunk):
                     part.add(traces_validated_against_impl=1)
                     e = ents.get(pfx + c['d'][-1][1]) or {}
                     part.outcome((e.get('kind'), e.get('size'), e.get('alignment'), len(e.get('fields', ()))))
-                    if probs and confirmed >= 30:
-                        report(part, c, spec, order, probs, tier)
-                    elif probs:
-                        # reproduce alone, so that the replay file is minimal
-                        confirmed += 1
-                        p1, info = solo(b, spec, order, wd, remap(gcc, pfx))
-                        part.add(evaluations=1)
-                        if p1:
-                            report(part, c, spec, order, p1, tier)
-                        else:
-                            part.violation('batch-only|%s|%s' % (c['k'], probs[0][0]), probs[0][1],
-                                           {'batch': [list(s) for s in specs], 'order': list(order), 'tier': tier,
-                                            'key': c['k']})
-            for pfx, c in cases:
-                part.nontrivial(c['k'])
+                    if not probs:
+                        continue
+                    key = c['m'] if c['m'] else '%s|%s' % (c['k'], probs[0][0])
+                    if key in seen:
+                        continue
+                    if confirmed >= 30:
+                        report(part, seen, c, spec, order, probs, tier)
+                        continue
+                    # reproduce alone, so that the replay file is minimal
+                    confirmed += 1
+                    p1, info = solo(b, spec, order, wd, remap(gcc, pfx))
+                    part.add(evaluations=1)
+                    if p1:
+                        report(part, seen, c, spec, order, p1, tier)
+                    else:
+                        part.violation('batch-only|%s|%s' % (c['k'], probs[0][0]), probs[0][1],
+                                       {'batch': [list(s) for s in specs], 'order': list(order), 'tier': tier,
+                                        'key': c['k']})
             if cases:
                 c = cases[len(cases) // 2][1]
                 part.sample({'case': c['k'], 'c': M.show_c(c['d'])})
@@ -548,9 +563,9 @@ def run(ctx):
     for s in specs:
         by_fam.setdefault(s[0], []).append(s)
     batches = []
-    for fam in ('seq', 'n1', 'n2', 'en', 'x'):
+    for fam in ('seq', 'n1', 'n2', 'en', 'x', 'xs'):
         ss = by_fam.get(fam, [])
-        size = 60 if fam == 'x' else BATCH
+        size = 12 if fam == 'xs' else BATCH
         for i in range(0, len(ss), size):
             batches.append((fam, ss[i:i + size]))
     thorough = ctx.tier == 'thorough'
@@ -558,17 +573,18 @@ def run(ctx):
                  'offsetof/enum signedness) and as GIR (rebuilt g-ir-compiler; StructBlob/UnionBlob size+alignment, '
                  'FieldBlob.struct_offset, EnumBlob.storage_type read by vt/typelib.py); both must agree, with helper/'
                  'inner types declared before and after their users. seq: all member sequences of length <= %d over %d '
-                 'core kinds and of length <= %d over all %d kinds, struct and union; n1/n2: nesting depth 1 and 2 with '
+                 'core kinds and of length <= 2%s over all %d kinds, struct and union; n1/n2: nesting depth 1 and 2 with '
                  'every inner layout of length <= 2 over %d kinds; en: all %d (min,max) pairs over %d boundary values x '
                  '{enumeration, bitfield}; x: %d scanner-producible special shapes (one violation key per mechanism). '
                  'non-trivial = every case except bit-field ones'
-                 % (4 if thorough else 3, NCORE, 3 if thorough else 2, len(ATOMS), len(INNER),
+                 % (4 if thorough else 3, NCORE, ' (plus length 3 with exactly one non-core kind)' if thorough else '',
+                    len(ATOMS), len(INNER),
                     len(ENUM_VALUES) * (len(ENUM_VALUES) + 1) // 2, len(ENUM_VALUES), len(X_CASES)),
-            bounds={'core_len': 4 if thorough else 3, 'variant_len': 3 if thorough else 2, 'core_kinds': NCORE,
+            bounds={'core_len': 4 if thorough else 3, 'variant_len': '2 + one-variant triples' if thorough else 2, 'core_kinds': NCORE,
                     'kinds': len(ATOMS), 'inner_kinds': len(INNER), 'inner_len': 2, 'enum_values': len(ENUM_VALUES),
                     'cases': dict((f, len(v)) for f, v in sorted(by_fam.items())), 'batch': BATCH,
                     'orders': dict((f, len(orders_for(f, ctx.tier))) for f in sorted(by_fam))})
-    nchunks = max(16, len(batches) // 3)
+    nchunks = max(32, len(batches) // 3)
     chunks = [(ctx.tier, c) for c in chunked(rotate(batches, ctx.seed), nchunks) if c]
     for r in pmap(_work, chunks):
         ctx.merge(r)
